@@ -852,6 +852,16 @@ impl<'a> VisitMut for Norm<'a> {
                     }
                 }
             }
+            Expr::Lit(ExprLit { lit: Lit::Str(l), .. }) => {
+                // R-STR: a string literal in expression position becomes `<strlit>("lit")` (unit opted in with @strlit)
+                if let Some(f) = &self.unit.strlit {
+                    if let Ok(fp) = parse_str::<Path>(f) {
+                        let l = l.clone();
+                        replace = Some(parse_quote!(#fp(#l)));
+                        self.bump("R-STR");
+                    }
+                }
+            }
             Expr::Binary(b) => {
                 // R-ENUMEQ
                 if matches!(b.op, BinOp::Eq(_) | BinOp::Ne(_)) {
